@@ -39,6 +39,9 @@ pub enum Case {
         ranges: Vec<(BoundSpec, BoundSpec)>,
         prefixes: Vec<PrefixSpec>,
         ops: Vec<Op>,
+        /// read the version-1 encoding of the file (single-level index)
+        #[serde(default)]
+        v1: bool,
     },
     Merger {
         case: c06::Case,
@@ -225,8 +228,13 @@ impl Prop for C11 {
 
     fn stages(&self, tier: Tier) -> Vec<Stage<Case>> {
         let writer = (gen::file_spec(tier), tape()).prop_map(|(spec, tape)| Case::Writer { spec, tape });
-        let reader = (gen::file_spec_light(Tier::Quick), tape(), vec(gen::probe(), 0..10), vec(range_strategy(), 0..4), vec(prefix_strategy(), 0..4), gen::history(40))
-            .prop_map(|(spec, tape, probes, ranges, prefixes, ops)| Case::Reader { spec, tape, probes, ranges, prefixes, ops });
+        let reader = (gen::file_spec_light(Tier::Quick), tape(), vec(gen::probe(), 0..10), vec(range_strategy(), 0..4), vec(prefix_strategy(), 0..4), gen::history(40), prop_oneof![4 => Just(false), 1 => Just(true)])
+            .prop_map(|(mut spec, tape, probes, ranges, prefixes, ops, v1)| {
+                if v1 {
+                    spec.conf.levels = 0;
+                }
+                Case::Reader { spec, tape, probes, ranges, prefixes, ops, v1 }
+            });
         let universe = prop_oneof![
             gen::list_src(gen::key_ascii(), Just(crate::common::Blob::Lit(vec![])).boxed(), 120),
             gen::list_src(gen::key_half_block(), Just(crate::common::Blob::Lit(vec![])).boxed(), 24),
@@ -302,9 +310,13 @@ impl Prop for C11 {
                     "partial": ctl.borrow().partial, "interrupted": ctl.borrow().interrupts}));
                 Ok(())
             }
-            Case::Reader { spec, tape, probes, ranges, prefixes, ops } => {
+            Case::Reader { spec, tape, probes, ranges, prefixes, ops, v1 } => {
                 let entries = spec.src.entries();
-                let bytes = write_file(&spec.conf, &entries)?;
+                let mut bytes = write_file(&spec.conf, &entries)?;
+                if *v1 && spec.conf.levels == 0 {
+                    bytes = crate::props::c10::to_v1(&bytes).map_err(|e| Fail::new("c11:harness", e))?;
+                    obs.class("io:reader:v1");
+                }
                 let plain = reader_transcript(Cursor::new(bytes.as_slice()), &entries, probes, ranges, prefixes, ops)?;
                 let ctl = ioinstr::ctl_with_tape(tape);
                 let src = Source::new(Rc::new(bytes.clone()), ctl.clone());
